@@ -3,7 +3,12 @@
 
 pub mod c05;
 pub mod c08;
+pub mod c10;
+pub mod c11;
+pub mod c12;
+pub mod c13;
 pub mod c14;
+pub mod fwd;
 pub mod c15;
 pub mod chooser;
 pub mod io;
@@ -21,6 +26,10 @@ pub fn scenario_for(pid: &str) -> Option<&'static dyn Scenario> {
     Some(match pid {
         "C05" => &c05::C05,
         "C08" => &c08::C08,
+        "C10" => &c10::C10,
+        "C11" => &c11::C11,
+        "C12" => &c12::C12,
+        "C13" => &c13::C13,
         "C14" => &c14::C14,
         "C15" => &c15::C15,
         _ => return None,
